@@ -46,8 +46,8 @@ LEVEL = "model_checking"
 ENGINE = "E2-BFS"
 SHARDS = {"quick": 16, "thorough": 16}
 RULE = (
-    "BFS over call histories drawn from a 41-event menu {unary ok/None/void/error+logs, produce x out{is,dict,empty} "
-    "x client policy{release,keep,alternate,late}, header+logs, mid-stream raise, take-k then close/cancel, init "
+    "BFS over call histories drawn from a 43-event menu {unary ok/None/void/error+logs, produce x out{is,dict,empty} "
+    "x client policy{release,keep,alternate,late}, 160-column batches (framing above the writer's estimate), header+logs, mid-stream raise, take-k then close/cancel, init "
     "error, exchange ok/raise/cancel/header/null/castable/dictionary/rejected input, request via shm pointer "
     "(unary ok/error, produce), release-oldest-kept}; configurations = segment data bytes {1,1000,9000,65536 "
     "(+4 MiB thorough)} x SHM_MIN_BATCH_BYTES {1,0,T=32}.  quick: 6 configurations (all sizes at threshold 1, size "
@@ -104,6 +104,9 @@ def build_menu() -> dict[str, dict[str, Any]]:
     for out in ("is", "dict", "empty"):
         for mode in ("rel", "keep", "alt", "late"):
             add(f"p-{out}-{mode}", f"produce-{out}", m="produce", script=_steps(out, [3, 2, 1]), mode=mode)
+    # a batch whose IPC framing overflows the writer's size estimate (160 columns): the exact-size fallback path
+    add("p-wide-rel", "produce-wide", m="produce", script=_steps("wide", [3, 2]), mode="rel")
+    add("p-wide-keep", "produce-wide", m="produce", script=_steps("wide", [2, 1]), mode="keep")
     add("p-h-logs-rel", "produce-header", m="produce_h",
         script={"hdr": 4, "init": [["log", "INFO", "init", {}]], "out": "is",
                 "steps": [[["log", "DEBUG", "s0", {"q": "z"}], ["emit", 2, None]], [["emit", 1, {"m": "n"}], ["finish"]]]}, mode="rel")
@@ -114,6 +117,8 @@ def build_menu() -> dict[str, dict[str, Any]]:
         add(f"p-take1-close-{mode}", "produce-take-close", m="produce", script=_steps("is", [2, 2, 2]), take=1, fin="close", mode=mode)
         add(f"p-take2-cancel-{mode}", "produce-take-cancel", m="produce", script=_steps("dict", [2, 2, 2]), take=2, fin="cancel", mode=mode)
     add("p-init-raise", "produce-init-error", m="produce", script={"init": [["raise", "KeyError", "nope"]]}, mode="rel")
+    # an exchange whose init raises: the client has already sent its first input (through the segment) when it learns
+    add("x-init-raise", "exchange-init-error", m="exch", script={"init": [["raise", "KeyError", "xnope"]]}, inputs=[[1, 2], [3]], mode="rel")
     ex = {"steps": [[["echo", 2, {"e": "0"}]], [["log", "INFO", "x1", {}], ["echo", 3, None]], [["echo", 1, None]]]}
     for mode in ("rel", "keep", "alt"):
         add(f"x-{mode}", "exchange", m="exch", script=ex, inputs=[[1, 2], [3], [4, 5, 6]], mode=mode)
@@ -137,7 +142,7 @@ def build_menu() -> dict[str, dict[str, Any]]:
 
 MENU = build_menu()
 # reduced menu for the last call of the deepest histories where the full menu is too expensive (one per class)
-PROBE = ("u-ret", "p-is-rel", "p-is-keep", "p-dict-alt", "p-empty-keep", "p-take2-cancel-keep", "x-rel", "x-keep",
+PROBE = ("u-ret", "p-is-rel", "p-is-keep", "p-dict-alt", "p-empty-keep", "p-wide-rel", "p-take2-cancel-keep", "x-rel", "x-keep",
          "x-raise-rel", "x-in-dict", "x-in-badname", "r-u-ret", "r-p-keep", "REL0")
 
 
@@ -471,8 +476,22 @@ def run_history(cfg: dict[str, Any], hist: tuple[str, ...]) -> Result:
                     diff = next((i for i, (a, b) in enumerate(zip(log_trace, exp_trace)) if a != b), min(len(log_trace), len(exp_trace)))
                     bad.append((f"trace-differs-from-inline:{ev['cls']}",
                                 f"{where}: client-visible trace differs from inline transfer at event {diff}: got {log_trace[diff:diff + 2]} expected {exp_trace[diff:diff + 2]}"))
-                post = read_table(seg.buf, total)
                 n_new = sum(1 for k in new_kept if k["region"])
+                # The server may still be consuming input it answered ahead of (an init error is written before the
+                # refused stream's input is drained): the table is judged once the server is parked on its next read.
+                if cfg["pipe"] == "mem":
+                    with contextlib.suppress(Exception):
+                        mem.wait_reply_or_idle(c, 10.0)
+                else:
+                    import time as _time
+
+                    t_end = _time.monotonic() + 1.0
+                    while _time.monotonic() < t_end:
+                        cur = read_table(seg.buf, total)
+                        if cur is not None and len(cur) == len(pre or ()) + n_new:
+                            break
+                        _time.sleep(0.005)
+                post = read_table(seg.buf, total)
                 if post is None:
                     bad.append(("table-corrupt", f"{where}: header count does not fit"))
                 else:
